@@ -389,7 +389,9 @@ def _q(qkey):
     if _QCACHE.get("owner") != owner:        # a forked process gets its own arrays
         _QCACHE.clear()
         _QCACHE["owner"] = owner
-    return [_QCACHE.setdefault(name, np.array(QARRAYS[name], dtype="d")) for name in QSETS[qkey]]
+    arrays = [_QCACHE.setdefault(name, np.array(QARRAYS[name], dtype="d")) for name in QSETS[qkey]]
+    # the list that holds them is the caller's too, and is handed to make_kernel again and again
+    return _QCACHE.setdefault("list:" + qkey, arrays)
 
 
 def _make_data(kind):
@@ -550,7 +552,9 @@ def _caller_objects(state):
     reg = state.setdefault("caller_registry", {})
     found = []
     for name, arr in _QCACHE.items():
-        if name != "owner":
+        if name.startswith("list:"):
+            found.append(("q vector list %s" % name[5:], arr))
+        elif name != "owner":
             found.append(("q array %s" % name, arr))
     for kind, data in _DCACHE.items():
         if kind != "owner":
@@ -572,6 +576,8 @@ def _caller_objects(state):
                 reg[id(obj)] = _snap(dict(PARS[model][key]))
             elif label.startswith("q array"):
                 reg[id(obj)] = _snap(np.array(QARRAYS[label.split()[-1]], dtype="d"))
+            elif label.startswith("q vector list"):
+                reg[id(obj)] = _snap([np.array(QARRAYS[n_], dtype="d") for n_ in QSETS[label.split()[-1]]])
             else:
                 reg[id(obj)] = _snap(obj)
         out.append((label, obj, reg[id(obj)]))
@@ -719,6 +725,10 @@ def child_handler(state, cmd):
             if _snap(data) != before:
                 return {"state_op": True, "raised": None,
                         "args_changed": "DirectModel() modified the caller's data object"}
+        elif kind == "direct_cutoff":
+            # the calculator's cutoff is a public attribute that fitting scripts assign to
+            calc, data = objs[op["d"]]
+            calc.cutoff = op["cutoff"]
         elif kind == "direct_call":
             calc, data = objs[op["d"]]
             pars = _pars_obj(state, op["model"], op["pars"])
@@ -870,6 +880,11 @@ def run_history(cfg, keep_events=False):
                 if op["m"] not in objs:
                     continue
                 objs[op["id"]] = {"type": "direct", "m": op["m"], "data": op["data"], "cutoff": op["cutoff"]}
+            elif kind == "direct_cutoff":
+                if op["d"] not in objs:
+                    continue
+                objs[op["d"]] = dict(objs[op["d"]], cutoff=op["cutoff"])
+                probe("cutoff_reassigned_on_live_calculator")
             elif kind == "sv_new":
                 objs[op["id"]] = {"type": "sv", "model": op["model"], "config": []}
             elif kind == "sv_mult":
@@ -1132,8 +1147,13 @@ def gen_history(w, n_ops):
                 keys = [x for x in sorted(PARS[d["model"]]) if x.split("#")[0] not in ("pd4", "pd140") and
                         not (not d["data"].startswith("2d") and x == "mag")]
                 ops.append({"op": "direct_call", "d": d["id"], "model": d["model"], "pars": w.choice(keys)})
-                if w.random() < 0.3:
+                t_ = w.random()
+                if t_ < 0.3:
                     ops.append(dict(ops[-1]))
+                elif t_ < 0.45:
+                    # the cutoff reassigned on the live calculator, then the same parameters again
+                    ops.append({"op": "direct_cutoff", "d": d["id"], "cutoff": w.choice([0.0, 1e-5, 1e-3])})
+                    ops.append(dict(ops[-2]))
         elif r < 0.93:
             s = w.choice(svs) if svs and w.random() < 0.75 else add_sv()
             rr = w.random()
@@ -1239,6 +1259,13 @@ def sweep_configs(tier):
                 ops.append({"op": "direct_call", "d": did, "model": model, "pars": key})
         for did in ids:
             ops.append({"op": "direct_call", "d": did, "model": model, "pars": pk[0]})
+        # the cutoff reassigned on live calculators, same parameters before and after
+        for did in ids[:3]:
+            ops += [{"op": "direct_call", "d": did, "model": model, "pars": pk[1]},
+                    {"op": "direct_cutoff", "d": did, "cutoff": 1e-3},
+                    {"op": "direct_call", "d": did, "model": model, "pars": pk[1]},
+                    {"op": "direct_cutoff", "d": did, "cutoff": 0.0},
+                    {"op": "direct_call", "d": did, "model": model, "pars": pk[1]}]
         out.append({"kind": "history", "ops": ops, "recheck_seed": 3, "family": "calculators_over_data_kinds"})
     # two models built from one library: a kernel of the one the caller forgot must survive
     # the release of the other, and release followed by re-creation must work
